@@ -68,6 +68,27 @@ class FuncInfo(object):
                         self.module, self.cls, sub, parent=self)
         return self._nested
 
+    def nested_view(self):
+        """nested(), plus the local functions that private helpers brought
+        along when they were inlined into the normalised view."""
+        out = dict(self.nested())
+        stack = list(self.node.body)
+        while stack:
+            node = stack.pop()
+            if isinstance(node, (ast.FunctionDef, ast.AsyncFunctionDef)):
+                if node.name not in out:
+                    out[node.name] = FuncInfo(self.module, self.cls, node,
+                                              parent=self)
+                continue
+            if isinstance(node, (ast.ClassDef, ast.Lambda)):
+                continue
+            for field in ('finalbody', 'orelse', 'handlers', 'body',
+                          '_inline_body'):
+                sub = getattr(node, field, None)
+                if isinstance(sub, list):
+                    stack.extend(sub)
+        return out
+
     def params(self):
         args = self.raw.args
         return [a.arg for a in args.posonlyargs + args.args]
